@@ -855,7 +855,7 @@ func runDocCase(c dCase) dEvent {
 		kept := append([]byte{}, payload...) // what the caller was given, byte for byte
 		reps := c.Var.Reps
 		if c.Var.Busy {
-			reps += 150 // (every one of these calls is a call whose result a client receives)
+			reps += 100 // (every one of these calls is a call whose result a client receives)
 		}
 		for i := 1; i < reps; i++ {
 			again, err := jsonapi.MarshalDocument(doc, url)
@@ -1275,7 +1275,11 @@ func docMain(args []string) {
 			d.Unenc = true
 			stt.class("primary-cannot-be-encoded")
 		}
-		if v.Busy = rng.Intn(8) == 0; v.Busy {
+		busyOneIn := 8
+		if *n > 10000 {
+			busyOneIn = 30 // (the long runs have many more cases: as many busy ones in absolute numbers, three times over)
+		}
+		if v.Busy = rng.Intn(busyOneIn) == 0; v.Busy {
 			stt.class("while-others-marshal")
 		}
 		c := dCase{Fam: "doc", Mode: "doc", Doc: d, Var: v, Seed: *seed}
